@@ -185,7 +185,11 @@ Section ReadOff.
 
   Variables (v : variant) (n : nat) (sigma0 : env).
   Hypothesis Hw0 : env_wf sigma0.
-  Let sc := script v en 0 n.
+  (** the script: all commands of [script v en 0 n], each of a known origin, in some accepted order
+      ([script v en 0 n] itself, or [script3 en n]) *)
+  Variable sc : list cmd.
+  Hypothesis Hsc_sub : forall c, In c (script v en 0 n) -> In c sc.
+  Hypothesis Hsc_orig : forall c, In c sc -> cmd_origin en 0 n c.
   Hypothesis Hck : script_check [] sc = true.
   Let sigma := script_eval sigma0 sc.
   Let dfin := script_decls [] sc.
@@ -270,7 +274,7 @@ Section ReadOff.
   Proof.
     intros Hs0 Hns Hc Heq. apply mk_sym_inj in Heq. destruct Heq as [Hname Hty].
     pose proof (sig_sym_sig en Hb s0 k Hs0) as Hsig.
-    apply (script_origin en 0 n) in Hc.
+    apply Hsc_orig in Hc.
     destruct Hc as [s1 k1 Hs1 Hk1 Hc1|st k1 Hst Hk1 Hc1|st e1 Hst Hj He1 Hc1|st e1 p Hst Hp Hp1 He1 Hconst Hc1].
     - pose proof (sig_sym_sig en Hb s1 k1 Hs1) as Hsig1.
       assert (Hnm1 : cmd_name c = name_at (sg_name s1) k1) by (rewrite Hc1; destruct (is_symbol (sg_expr s1)); reflexivity).
@@ -335,11 +339,11 @@ Section ReadOff.
   Qed.
 
   Lemma in_script_init c : In c (init_at v en 0) -> In c sc.
-  Proof. intros H. unfold sc, script. apply in_or_app. now left. Qed.
+  Proof. intros H. apply Hsc_sub. unfold script. apply in_or_app. now left. Qed.
 
   Lemma in_script_unroll c k : (k < n)%nat -> In c (unroll v en 0 (N.of_nat k)) -> In c sc.
   Proof.
-    intros Hk H. unfold sc, script. apply in_or_app. right. apply (in_unrolls_gen v en 0 c n 0 (N.of_nat k)); [lia|assumption].
+    intros Hk H. apply Hsc_sub. unfold script. apply in_or_app. right. apply (in_unrolls_gen v en 0 c n 0 (N.of_nat k)); [lia|assumption].
   Qed.
 
   (** the value of the root of an init / next expression *)
@@ -442,7 +446,7 @@ Section ReadOff.
       assert (Hlenf : length read_frees = n) by (unfold read_frees; now rewrite map_length, seq_length).
       destruct (observable_covered sy nm Hwf v 0 n (read 0) read_frees Hlenf (fun _ => read_initial) e _ s' Hobs Hks Es) as (c & Hc & Hcs).
       apply (signal_value (size e) e (le_n _)); [assumption|].
-      rewrite <- Hcs, syms_ok_mk_sym. unfold sym_ok, dfin. fold sc in Hc.
+      rewrite <- Hcs, syms_ok_mk_sym. unfold sym_ok, dfin. apply Hsc_sub in Hc.
       rewrite (script_decls_lookup sc [] c Hck Hc). apply ty_eqb_refl.
     - destruct e; try discriminate. destruct w; try discriminate. destruct p; try discriminate.
       injection Hg as <-. split; reflexivity.
@@ -491,7 +495,21 @@ Section Exact.
   Hypothesis Hn : names_ok (enc_new sy nm) = true.
   Variable v : variant.
   Let en := enc_new sy nm.
-  Hypothesis Hck : forall n, script_check [] (script v en 0 n) = true.
+  (** the script after [n] unrollings: the commands of [script v en 0 n] in an accepted order, faithful *)
+  Variable scr : nat -> list cmd.
+  Hypothesis Hscr_S : forall i, scr (S i) = scr i ++ unroll v en 0 (N.of_nat i).
+  Hypothesis Hsub : forall n c, In c (script v en 0 n) -> In c (scr n).
+  Hypothesis Horig : forall n c, In c (scr n) -> cmd_origin en 0 n c.
+  Hypothesis Hck : forall n, script_check [] (scr n) = true.
+  Hypothesis Hfaithful : forall (rho0 : env) (frees : list env) (sigma0 : env), is_initial sy rho0 ->
+    let n := length frees in
+    let sc := scr n in
+    let trace := run_from sy rho0 frees in
+    script_check [] sc = true ->
+    (forall nm' t e k, In (DeclareConst nm' t) sc -> k <= N.of_nat n ->
+        sig_sym en e k = Some (mk_sym nm' t) -> same_val sigma0 (mk_sym nm' t) (nth (N.to_nat k) trace env0) e) ->
+    forall e k s, observable sy e -> k <= N.of_nat n -> get_signal_at en e k = Some s ->
+      same_val (script_eval sigma0 sc) s (nth (N.to_nat k) trace env0) e.
 
   (** the assertions made before step [i]: the step symbols of all constraints at all earlier steps *)
   Definition asserts_upto (asserts : list expr) (i : nat) : Prop :=
@@ -512,28 +530,28 @@ Section Exact.
 
   Lemma hit_is_reach i asserts bs :
     asserts_upto asserts (S i) -> signals_at en (s_bads sy) (N.of_nat i) = Some bs ->
-    existsb (fun b => solver_sat (script v en 0 i) asserts [b]) bs = true -> reach_at sy i.
+    existsb (fun b => solver_sat (scr i) asserts [b]) bs = true -> reach_at sy i.
   Proof.
     intros [H1 H2] Hbs Hex. apply existsb_exists in Hex. destruct Hex as (sb & Hsb & Hsat).
     apply solver_correct in Hsat. destruct Hsat as (sigma0 & Hw0 & Hass & Hb).
     cbn [forallb] in Hb. rewrite andb_true_r in Hb.
     destruct (proj1 (signals_at_spec en _ _ _ Hbs) sb Hsb) as (b & Hbin & Hg).
-    apply (model_is_execution sy nm Hwf Hni Hn v i sigma0 Hw0 (Hck i) asserts b sb); try assumption.
+    apply (model_is_execution sy nm Hwf Hni Hn v i sigma0 Hw0 (scr i) (Hsub i) (Horig i) (Hck i) asserts b sb); try assumption.
     intros c m Hc Hm. apply H2; [assumption|lia].
   Qed.
 
   Lemma reach_is_hit i asserts bs :
     asserts_upto asserts (S i) -> signals_at en (s_bads sy) (N.of_nat i) = Some bs ->
-    reach_at sy i -> existsb (fun b => solver_sat (script v en 0 i) asserts [b]) bs = true.
+    reach_at sy i -> existsb (fun b => solver_sat (scr i) asserts [b]) bs = true.
   Proof.
     intros [H1 H2] Hbs (trace & (rho0 & frees & -> & Hinit & Hwfr & Hcons) & Hlen & Hbad).
     rewrite (run_len sy) in Hlen.
-    apply (reached_is_sat v solver_sat solver_correct sy nm Hwf Hn Hck i rho0 frees asserts bs); try assumption; [lia|].
+    apply (reached_is_sat solver_sat solver_correct sy nm Hwf Hn scr Hck Hfaithful i rho0 frees asserts bs); try assumption; [lia|].
     intros a Ha. destruct (H1 a Ha) as (c & m & Hc & Hm & Hg). exists c, m. split; [assumption|]. split; [lia|assumption].
   Qed.
 
   Lemma loop_exact : forall fuel i asserts k, asserts_upto asserts i ->
-    bmc_loop v solver_sat en true (script v en 0 i) asserts (N.of_nat i) fuel = BmcFail k ->
+    bmc_loop v solver_sat en true (scr i) asserts (N.of_nat i) fuel = BmcFail k ->
     exists j, k = N.of_nat j /\ (i <= j <= i + fuel)%nat /\ reach_at sy j /\ forall m, (i <= m < j)%nat -> ~ reach_at sy m.
   Proof.
     induction fuel as [|fuel IH]; intros i asserts k Hinv; cbn [bmc_loop];
@@ -541,13 +559,12 @@ Section Exact.
       destruct (signals_at en (s_constraints sy) (N.of_nat i)) as [cs|] eqn:Ec; try discriminate;
       destruct (signals_at en (s_bads sy) (N.of_nat i)) as [bs|] eqn:Eb; try discriminate;
       pose proof (asserts_step asserts i cs Hinv Ec) as Hinv';
-      destruct (existsb (fun b => solver_sat (script v en 0 i) (asserts ++ cs) [b]) bs) eqn:Eh; try discriminate.
+      destruct (existsb (fun b => solver_sat (scr i) (asserts ++ cs) [b]) bs) eqn:Eh; try discriminate.
     - intros H. inversion H; subst. exists i. split; [reflexivity|]. split; [lia|].
       split; [now apply (hit_is_reach i (asserts ++ cs) bs)|intros; lia].
     - intros H. inversion H; subst. exists i. split; [reflexivity|]. split; [lia|].
       split; [now apply (hit_is_reach i (asserts ++ cs) bs)|intros; lia].
-    - replace (script v en 0 i ++ unroll v en 0 (N.of_nat i)) with (script v en 0 (S i))
-        by (unfold script; rewrite unrolls_snoc, app_assoc; now rewrite N.add_0_l).
+    - rewrite <- Hscr_S.
       replace (N.of_nat i + 1) with (N.of_nat (S i)) by lia. intros H.
       destruct (IH (S i) (asserts ++ cs) k Hinv' H) as (j & -> & Hr & Hreach & Hmin).
       exists j. split; [reflexivity|]. split; [lia|]. split; [assumption|].
@@ -558,18 +575,87 @@ Section Exact.
   Lemma asserts_upto_nil : asserts_upto [] 0.
   Proof. split; [intros a []|intros c m _ Hm; lia]. Qed.
 
+  (** the loop started from [init] (= [scr 0]): exactness *)
+  Variable init : enc -> list cmd.
+  Hypothesis Hinit0 : scr 0%nat = init en.
+
   (** a [BmcFail] answer names the least depth of a real counterexample *)
-  Theorem bmc_fail_exact k_max k :
-    bmc_model v solver_sat sy nm true k_max = BmcFail k ->
+  Theorem bmc_fail_exact_from k_max k :
+    bmc_model_from v solver_sat init sy nm true k_max = BmcFail k ->
     exists j, k = N.of_nat j /\ (j <= k_max)%nat /\ reach_at sy j /\ forall m, (m < j)%nat -> ~ reach_at sy m.
   Proof.
-    unfold bmc_model. destruct (s_bads sy) as [|b0 r0] eqn:Eb; [discriminate|]. intros H.
-    assert (H' : bmc_loop v solver_sat en true (script v en 0 0) [] (N.of_nat 0) k_max = BmcFail k).
-    { unfold script. cbn [unrolls]. rewrite app_nil_r. exact H. }
-    destruct (loop_exact k_max 0%nat [] k asserts_upto_nil H') as (j & -> & Hr & Hreach & Hmin).
+    unfold bmc_model_from. destruct (s_bads sy) as [|b0 r0] eqn:Eb; [discriminate|]. fold en. rewrite <- Hinit0. intros H.
+    destruct (loop_exact k_max 0%nat [] k asserts_upto_nil H) as (j & -> & Hr & Hreach & Hmin).
     exists j. split; [reflexivity|]. split; [lia|]. split; [assumption|]. intros m Hm. apply Hmin. lia.
   Qed.
+
+  Lemma bmc_modes_from k_max :
+    bmc_model_from v solver_sat init sy nm true k_max = bmc_model_from v solver_sat init sy nm false k_max.
+  Proof.
+    unfold bmc_model_from. destruct (s_bads sy) as [|b0 r0] eqn:Eb; [reflexivity|]. fold en. rewrite <- Hinit0.
+    apply (bmc_loop_modes_gen v solver_sat solver_correct en scr Hscr_S Hck).
+    - intros k bs. apply (bads_bool_valued sy nm Hwf).
+    - cbn. rewrite Eb. discriminate.
+  Qed.
+
+  Lemma bmc_no_miss_from k_max j individually : (j <= k_max)%nat -> reach_at sy j ->
+    bmc_model_from v solver_sat init sy nm individually k_max <> BmcSuccess.
+  Proof.
+    intros Hj Hr.
+    assert (H : bmc_model_from v solver_sat init sy nm true k_max <> BmcSuccess).
+    { unfold bmc_model_from. destruct (s_bads sy) as [|b0 r0] eqn:Eb.
+      - destruct Hr as (trace & _ & _ & Hbad). unfold some_bad in Hbad. rewrite Eb in Hbad. discriminate.
+      - fold en. rewrite <- Hinit0.
+        apply (bmc_no_miss_gen v solver_sat solver_correct sy nm Hwf Hn scr Hscr_S Hck Hfaithful k_max j Hj Hr).
+        rewrite Eb. discriminate. }
+    destruct individually; [exact H|]. now rewrite <- bmc_modes_from.
+  Qed.
+
+  Theorem bmc_exact_from k_max individually :
+    let res := bmc_model_from v solver_sat init sy nm individually k_max in
+    res <> BmcPanic ->
+    (forall j, res = BmcFail (N.of_nat j) <->
+               (j <= k_max)%nat /\ reach_at sy j /\ forall m, (m < j)%nat -> ~ reach_at sy m) /\
+    (res = BmcSuccess <-> forall j, (j <= k_max)%nat -> ~ reach_at sy j).
+  Proof.
+    intros res Hnp.
+    assert (Hres : res = bmc_model_from v solver_sat init sy nm true k_max).
+    { unfold res. destruct individually; [reflexivity|]. symmetry. apply bmc_modes_from. }
+    assert (Hfail : forall k, res = BmcFail k -> exists j, k = N.of_nat j /\ (j <= k_max)%nat /\ reach_at sy j /\
+                                                    forall m, (m < j)%nat -> ~ reach_at sy m).
+    { intros k Hk. rewrite Hres in Hk. now apply (bmc_fail_exact_from k_max k). }
+    assert (Hmiss : forall j, (j <= k_max)%nat -> reach_at sy j -> res <> BmcSuccess).
+    { intros j Hj Hr. unfold res. now apply (bmc_no_miss_from k_max j individually). }
+    split.
+    - intros j. split.
+      + intros H. destruct (Hfail _ H) as (j' & Hjj & H1 & H2 & H3). apply Nat2N.inj in Hjj. subst j'. auto.
+      + intros (Hj & Hr & Hmin). destruct res as [|k|] eqn:Er.
+        * exfalso. now apply (Hmiss j Hj Hr).
+        * destruct (Hfail k eq_refl) as (j' & -> & H1 & H2 & H3). f_equal. f_equal.
+          destruct (Nat.lt_trichotomy j' j) as [Hlt|[->|Hgt]]; [exfalso; now apply (Hmin j')|reflexivity|exfalso; now apply (H3 j)].
+        * contradiction.
+    - split.
+      + intros H j Hj Hr. now apply (Hmiss j Hj Hr).
+      + intros Hnone. destruct res as [|k|] eqn:Er; [reflexivity| |contradiction].
+        destruct (Hfail k eq_refl) as (j' & -> & H1 & H2 & _). exfalso. now apply (Hnone j').
+  Qed.
 End Exact.
+
+(** the instance [script v] *)
+Theorem bmc_fail_exact (solver_sat : list cmd -> list expr -> list expr -> bool) :
+  (forall sc asserts assumps,
+      solver_sat sc asserts assumps = true <-> exists sigma0, is_model sc asserts assumps sigma0) ->
+  forall sy nm, sys_wf sy = true -> nodup_exprs (s_inputs sy) = true -> names_ok (enc_new sy nm) = true ->
+  forall v, (forall n, script_check [] (script v (enc_new sy nm) 0 n) = true) ->
+  forall k_max k, bmc_model v solver_sat sy nm true k_max = BmcFail k ->
+    exists j, k = N.of_nat j /\ (j <= k_max)%nat /\ reach_at sy j /\ forall m, (m < j)%nat -> ~ reach_at sy m.
+Proof.
+  intros Hsolver sy nm Hwf Hni Hn v Hck k_max k.
+  apply (bmc_fail_exact_from solver_sat Hsolver sy nm Hwf Hni Hn v (script v (enc_new sy nm) 0) (script_S v (enc_new sy nm))
+           (fun n c H => H) (fun n c H => script_origin (enc_new sy nm) 0 n v c H) Hck (faithful_shape sy nm v Hwf Hn)
+           (fun en => init_at v en 0)).
+  unfold script. cbn [unrolls]. apply app_nil_r.
+Qed.
 
 (** bmc_model_exact: over a correct solver, for the repaired encoding of any
     well-formed system whose init expressions are in the class the encoding
@@ -588,28 +674,13 @@ Theorem bmc_model_exact_final (solver_sat : list cmd -> list expr -> list expr -
                (j <= k_max)%nat /\ reach_at sy j /\ forall m, (m < j)%nat -> ~ reach_at sy m) /\
     (res = BmcSuccess <-> forall j, (j <= k_max)%nat -> ~ reach_at sy j).
 Proof.
-  intros Hsolver sy nm k_max individually Hwf Hni Hn Hir res Hnp.
+  intros Hsolver sy nm k_max individually Hwf Hni Hn Hir.
   assert (Hck : forall n, script_check [] (script Fixed (enc_new sy nm) 0 n) = true)
     by (intros n; apply wf_fixed_final; auto).
-  assert (Hres : res = bmc_model Fixed solver_sat sy nm true k_max).
-  { unfold res. destruct individually; [reflexivity|]. symmetry. now apply bmc_modes_agree_final. }
-  assert (Hfail : forall k, res = BmcFail k -> exists j, k = N.of_nat j /\ (j <= k_max)%nat /\ reach_at sy j /\
-                                                  forall m, (m < j)%nat -> ~ reach_at sy m).
-  { intros k Hk. rewrite Hres in Hk. now apply (bmc_fail_exact solver_sat Hsolver sy nm Hwf Hni Hn Fixed Hck k_max k). }
-  assert (Hmiss : forall j, (j <= k_max)%nat -> reach_at sy j -> res <> BmcSuccess).
-  { intros j Hj Hr. unfold res. now apply (bmc_no_miss_final solver_sat Hsolver sy nm k_max j individually). }
-  split.
-  - intros j. split.
-    + intros H. destruct (Hfail _ H) as (j' & Hjj & H1 & H2 & H3). apply Nat2N.inj in Hjj. subst j'. auto.
-    + intros (Hj & Hr & Hmin). destruct res as [|k|] eqn:Er.
-      * exfalso. now apply (Hmiss j Hj Hr).
-      * destruct (Hfail k eq_refl) as (j' & -> & H1 & H2 & H3). f_equal. f_equal.
-        destruct (Nat.lt_trichotomy j' j) as [Hlt|[->|Hgt]]; [exfalso; now apply (Hmin j')|reflexivity|exfalso; now apply (H3 j)].
-      * contradiction.
-  - split.
-    + intros H j Hj Hr. now apply (Hmiss j Hj Hr).
-    + intros Hnone. destruct res as [|k|] eqn:Er; [reflexivity| |contradiction].
-      destruct (Hfail k eq_refl) as (j' & -> & H1 & H2 & _). exfalso. now apply (Hnone j').
+  apply (bmc_exact_from solver_sat Hsolver sy nm Hwf Hni Hn Fixed (script Fixed (enc_new sy nm) 0) (script_S Fixed (enc_new sy nm))
+           (fun n c H => H) (fun n c H => script_origin (enc_new sy nm) 0 n Fixed c H) Hck (faithful_shape sy nm Fixed Hwf Hn)
+           (fun en => init_at Fixed en 0)).
+  unfold script. cbn [unrolls]. apply app_nil_r.
 Qed.
 
 (** ... and therefore the loop and the explicit-state reference give the same answer *)
